@@ -72,6 +72,20 @@ def test_values(enum):
     return sorted(out)
 
 
+_HAND_TAGGED = None
+
+
+def hand_tagged():
+    """(interface, message, argument name) triples the tool itself tags with an enum after loading (load_all's fix-ups for
+    descriptions that lack the attribute), read from the tool's source so that the list follows it"""
+    global _HAND_TAGGED
+    if _HAND_TAGGED is None:
+        import re as _re
+        src = open(os.path.join(env.REPO, 'core', 'wl', 'protocol.py')).read()
+        _HAND_TAGGED = set(_re.findall(r"interfaces\['([^']+)'\]\.messages\['([^']+)'\]\.args\['([^']+)'\]\.enum\s*=", src))
+    return _HAND_TAGGED
+
+
 class Shipped(Stage):
     """exhaustive: every shipped interface x message x argument position; every enum-typed argument
     with all entry values, unions of bitfield entries, zero and values outside"""
@@ -116,6 +130,15 @@ class Shipped(Stage):
                         bad.append('%s.%s arg %d named %r, description says %r' % (iface, m.name, i, nm, a.name))
                     if itf != a.interface:
                         bad.append('%s.%s arg %d interface %r, description says %r' % (iface, m.name, i, itf, a.interface))
+                    if a.enum is None and a.type in ('int', 'uint') and (iface, m.name, a.name) not in hand_tagged() and all(
+                            (cc.msg(m.name) is None or i >= len(cc.msg(m.name).args) or cc.msg(m.name).args[i].enum is None) for cc in cands):
+                        # no description declares an enum for it: it stays a bare number
+                        for v in (0, 1, 272):
+                            res.evals += 1
+                            got = protocol.look_up_enum(iface, m.name, i, v)
+                            if got != []:
+                                bad.append('%s.%s arg %d (%s) carries no enum in any description but value %d is decoded as %r' % (iface, m.name, i, a.name, v, got))
+                                break
                     if a.enum is not None and a.type in ('int', 'uint'):
                         ecs = enum_candidates(c, a.enum, w)
                         if not ecs:
@@ -139,7 +162,7 @@ class Shipped(Stage):
             kinds = set()
             for p, bad in failures:
                 for b in bad:
-                    kinds.add('enum-decode' if 'decoded' in b else ('arg-name' if 'named' in b else ('nil-interface' if 'interface' in b else 'lookup-error')))
+                    kinds.add('undeclared-enum' if 'carries no enum' in b else 'enum-decode' if 'decoded' in b else ('arg-name' if 'named' in b else ('nil-interface' if 'interface' in b else 'lookup-error')))
             res.bad('shipped:' + '+'.join(sorted(kinds)), '%s agrees with none of its %d maximal-version descriptions: %s' % (
                 iface, len(cands), '; '.join(failures[0][1][:3])))
         res.nontrivial = nenum > 0 or any(a.type == 'object' for c in cands for m in c.msgs for a in m.args)
